@@ -27,7 +27,7 @@ from ..gutil import key_of, maxabs
 LEVEL = "model_checking"
 RULE = ("menu: a_b in {0,(0,0,9.8),(3,-2,11)} x w_b in {0, 1e-9 e1, (0.3,-0.2,0.5), 30 e3} x g in {0, 9.8} x dt in {0,1e-3,0.01,0.5,2}; "
         "initial states: identity and two generic poses (both quaternion signs); BFS over all words to the depth; one-step lattice "
-        "adds 7 axes x 14 magnitudes + harvested switch neighbours for every dt. non-trivial = dt>0 and (a,w,g) not all zero; "
+        "adds 7 axes x 14 magnitudes + harvested switch neighbours for every dt, each also in 60-digit arithmetic against the closed-form flow; exp_mixed with general increments (4 x 4 x 2); two steps in two threads, all interleavings with <= 1 (thorough 2) preemptions. non-trivial = dt>0 and (a,w,g) not all zero; "
         "distinct by raw bytes of (state, menu item)")
 ASSUMPTIONS = ["reference flow from 80-digit power series of Gamma_1, Gamma_2 rounded to doubles; numpy afterwards",
                "words longer than the depth not covered"]
